@@ -1,16 +1,18 @@
-import HC.Driver
+import HC.DriverCore
 open HC.Driver
 
-partial def loop (h : IO.FS.Stream) (out : IO.FS.Stream) : IO Unit := do
+partial def loop (h : IO.FS.Stream) (out : IO.FS.Stream) (w : World) : IO Unit := do
   let line ← h.getLine
   if line.isEmpty then return ()
   let ws := words line
   match pureLine ws with
-  | some o => out.putStrLn o
-  | none => out.putStrLn "bad-op"
-  loop h out
+  | some o => out.putStrLn o; loop h out w
+  | none =>
+    match coreLine w ws with
+    | some (w', o) => out.putStrLn o; loop h out w'
+    | none => out.putStrLn "bad-op"; loop h out w
 
 def main : IO Unit := do
   let stdin ← IO.getStdin
   let stdout ← IO.getStdout
-  loop stdin stdout
+  loop stdin stdout {}
